@@ -68,7 +68,7 @@ def parse_harnesses(spec_path):
     out = []
     for m in HARNESS_RE.finditer(txt):
         h = {'name': m.group(1), 'enforce': None, 'replace': [], 'unwind': None, 'props': [], 'when': None, 'timeout': None,
-             'loopcontracts': False, 'flags': [], 'pre_unwind': None, 'unwindset': None, 'expect': None, 'level': None, 'mem': None, 'bounded': None, 'objbits': None}
+             'loopcontracts': False, 'flags': [], 'pre_unwind': None, 'plain': None, 'unwindset': None, 'expect': None, 'level': None, 'mem': None, 'bounded': None, 'objbits': None}
         for kv in m.group(2).split():
             if '=' not in kv:
                 continue
@@ -198,6 +198,7 @@ def run_harness(unit, variant, h, tier='quick', keep=False):
             r.update(status='infra', reason='goto-instrument --unwindset failed: ' + (se + so)[-2000:])
             return r
         os.replace(gb0, gb1)
+    plain = h.get('plain') in ('1', 'yes')
     gi = ['goto-instrument', '--no-malloc-may-fail', '--dfcc', h['name']]
     if h['enforce']:
         gi += ['--enforce-contract', h['enforce']]
@@ -206,6 +207,9 @@ def run_harness(unit, variant, h, tier='quick', keep=False):
     if h['loopcontracts'] in ('1', 'yes', True):
         gi += ['--apply-loop-contracts']
     gi += [gb1, gb2]
+    if plain:
+        # bounded run of real bodies without any contract: no instrumentation needed
+        gi = ['cp', gb1, gb2]
     rc, so, se, _ = sh(gi, timeout=600, mem_mb=12000)
     if rc != 0:
         r.update(status='infra', reason='goto-instrument failed: ' + (se + so)[-3000:])
@@ -251,10 +255,13 @@ def run_harness(unit, variant, h, tier='quick', keep=False):
         loc = p.get('sourceLocation', {})
         o = {'name': p.get('property'), 'desc': p.get('description'), 'status': p.get('status'),
              'file': loc.get('file'), 'line': loc.get('line'), 'function': loc.get('function')}
-        obs.append(o)
         if 'vacuity canary' in (o['desc'] or ''):
+            if o.get('function') != h['name']:
+                continue          # canary of another (unreachable) harness compiled into the same binary
             o['canary'] = True
-            continue_canary = True
+        elif loc.get('function') and loc.get('function') != h['name'] and (loc.get('function').startswith('h_') or loc.get('function').startswith('lemma_') or loc.get('function').startswith('bounded_') or loc.get('function').startswith('dbg_')):
+            continue              # obligations inside other harness functions (unreachable from this entry point)
+        obs.append(o)
         if p.get('status') == 'FAILURE' and not o.get('canary'):
             o['trace'] = p.get('trace')
             failed.append(o)
@@ -577,6 +584,8 @@ def main(argv):
         rest = argv[3:] if cmd == 'extract' else argv[4:]
         v = dict(unit['variants']['quick'][0])
         for kv in rest:
+            if '=' not in kv:
+                continue
             k, _, val = kv.partition('=')
             v[k] = int(val) if re.fullmatch(r'-?\d+', val) else val
         try:
